@@ -172,6 +172,34 @@ type env struct {
 	// sqlSuffix is appended to the read-back queries of verifyNode (" limit n" when a node holds more
 	// groups than the default limit of a group-by query)
 	sqlSuffix string
+	// cut, when set, says that the limit of the current query cuts its answer: executions are compared with
+	// the complete answer by the subset relation (see diffLimited) instead of equality
+	cut   *cutSpec
+	picks map[string]bool // see cutSpec.picks: over all layouts of the current query
+}
+
+// cutSpec: under the current layout the complete answer of the query has more series (groups) than its limit.
+// A series of the complete answer is a group the root merged from the leaf answers; on this tree that
+// includes groups none of whose series has a point in the query's time range (the leaf sends such a series
+// with empty field data): they are returned without values and take a place of the limit like any other
+// group, so the cut is decided by the number of series of the complete answer, not by the model's groups.
+type cutSpec struct {
+	limit  int
+	series int             // series of the complete answer under this layout (with and without values)
+	data   int             // groups with values (= the model's groups)
+	picks  map[string]bool // the sets of groups with values that answers held so far (sorted keys joined)
+	short  int             // accepted answers with fewer series than the limit
+}
+
+// rawKeys: the series of a result set (also those without values).
+func rawKeys(rs *commonmodels.ResultSet) map[string]bool {
+	out := map[string]bool{}
+	if rs != nil {
+		for _, s := range rs.Series {
+			out[node.SeriesKey(s.Tags)] = true
+		}
+	}
+	return out
 }
 
 var caseSeq int
@@ -488,6 +516,64 @@ func checkReference(ref node.Result, m *modelOut) string {
 	return strings.Join(msgs, "\n")
 }
 
+// diffLimited is the relation between an answer the limit cut and the complete answer (the same statement
+// with a limit that does not cut, reference layout): no order by, so WHICH groups the answer holds is not
+// specified and may differ from execution to execution; but
+//   - it holds `limit` series (the complete answer has more than that under this layout), or fewer and then
+//     every group with values of the complete answer,
+//   - every group it holds with values is a group of the complete answer, with all its cells and their
+//     values: a group is the aggregate of all its series wherever they are stored.
+//
+// An error instead of the answer is a difference (not-found only when the complete answer has values).
+func diffLimited(full node.Result, rs *commonmodels.ResultSet, gotErr error, m *modelOut, cut *cutSpec) (msg string, ambiguousDiffers int) {
+	if gotErr != nil {
+		if strings.Contains(gotErr.Error(), "not found") && cut.data == 0 {
+			return "", 0
+		}
+		return fmt.Sprintf("query failed: %v (the complete answer has %d series, %d with values)", gotErr, cut.series, cut.data), 0
+	}
+	got := node.Canon(rs)
+	sub := node.Result{}
+	for k := range got {
+		if fs, ok := full[k]; ok {
+			sub[k] = fs
+		}
+	}
+	var msgs []string
+	n := len(rs.Series)
+	if n > cut.limit || len(rawKeys(rs)) != n {
+		msgs = append(msgs, fmt.Sprintf("the result set has %d series (%d different ones), the limit is %d", n, len(rawKeys(rs)), cut.limit))
+	}
+	if n < cut.limit {
+		// the limit was not reached, so nothing was cut: every group with values must be there (series
+		// without values need not: whether one reaches the root may depend on the topology)
+		var lacks []string
+		for _, k := range m.groupKeys() {
+			if _, ok := got[k]; !ok {
+				lacks = append(lacks, "["+k+"]")
+			}
+		}
+		if len(lacks) > 0 {
+			msgs = append(msgs, fmt.Sprintf("the result set has only %d series, the limit is %d, and it lacks %d groups with values of the complete answer: %s", n, cut.limit, len(lacks), strings.Join(lacks, " ")))
+		}
+	}
+	d, a := diff(sub, got, nil, m)
+	if d != "" {
+		msgs = append(msgs, "a returned group differs from the same group of the complete answer (extra = no such cell / group there):", d)
+	}
+	if len(msgs) > 0 {
+		msgs = append(msgs, "answer:\n"+got.String()+"the groups of the answer in the complete answer:\n"+sub.String())
+	} else {
+		if cut.picks != nil {
+			cut.picks[strings.Join(sortedKeys(got), "|")] = true
+		}
+		if n < cut.limit {
+			cut.short++
+		}
+	}
+	return strings.Join(msgs, "\n"), a
+}
+
 // executions: a disagreement only counts when the same execution (same query, layout, topology and
 // delivery order) disagrees this many times in a row. Reason: on the tree the harness was written
 // against a leaf occasionally (order of 1 in 10^4 queries over two data families) reduces its down
@@ -536,6 +622,11 @@ func runCase(t *rapid.T, group string, b caseBudget) {
 	defer n.Close()
 	caseSeq++
 	e := &env{seq: caseSeq, t: t, group: group, n: n, nc: node.NewCluster(), xc: newXCluster("root", "mid0"), opt: node.DBOption(timeutil.Interval(storageIntervalMs)), d: d}
+	if d.Wide {
+		// the read-back of a node is grouped by every tag key set: more groups than the default limit
+		e.sqlSuffix = concLimit
+		ev.Class(group, "case:wide-data-set", 1)
+	}
 	defer e.nc.Close()
 	defer e.xc.Close()
 	for i := 0; i < maxLeaves; i++ {
@@ -555,27 +646,46 @@ func runCase(t *rapid.T, group string, b caseBudget) {
 	for _, q := range queries {
 		sql := q.sql(d)
 		m := evalModel(d, q)
+		// A group-by query is compared with its complete answer: the same statement with a limit that does
+		// not cut. Whether the limit (explicit, or the default of the parser) cuts is decided per layout by
+		// the number of series of the complete answer there (see cutSpec).
+		e.cut, e.picks = nil, map[string]bool{}
+		refSQL := sql
+		if len(q.GroupBy) > 0 {
+			refSQL = q.sqlWithLimit(d, completeLimit)
+		}
 		// reference: 1 shard, 1 leaf, immediate delivery
 		e.nc.Permute = nil
 		var ref node.Result
+		var refSeries map[string]bool
 		for attempt := 1; ; attempt++ {
-			rs, rerr := e.nc.Query(layouts[0].db, sql)
+			rs, rerr := e.nc.Query(layouts[0].db, refSQL)
 			ref = node.Result{}
 			if rerr != nil {
 				if !strings.Contains(rerr.Error(), "not found") {
-					t.Fatalf("harness: the reference layout rejects %q: %v", sql, rerr)
+					t.Fatalf("harness: the reference layout rejects %q: %v", refSQL, rerr)
 				}
 			} else {
 				ref = node.Canon(rs)
 			}
+			refSeries = rawKeys(rs)
 			msg := checkReference(ref, m)
 			if msg == "" {
 				break
 			}
 			if attempt == executions {
-				t.Fatalf("reference layout (1 shard, 1 leaf) disagrees with the naive model (%d executions)\nquery: %s\n%s\ndata: %s", executions, sql, msg, dataJSON)
+				t.Fatalf("reference layout (1 shard, 1 leaf) disagrees with the naive model (%d executions)\nquery: %s\n%s\ndata: %s", executions, refSQL, msg, dataJSON)
 			}
 			ev.Class(group, "info:answer-not-reproduced-on-re-execution", 1)
+		}
+		if len(q.GroupBy) > 0 && len(refSeries) > q.effLimit() {
+			// the cut answer of the reference layout itself
+			e.cut = &cutSpec{limit: q.effLimit(), series: len(refSeries), data: len(m.groupKeys()), picks: e.picks}
+			if msg, _ := e.repeat(func() (*commonmodels.ResultSet, error) { return e.nc.Query(layouts[0].db, sql) }, ref, m); msg != "" {
+				t.Fatalf("C12 violated: the answer the limit cuts is no part of the complete answer (1 shard, 1 leaf)\nquery:    %s\ncomplete: %s\n%s\ncomplete answer:\n%sdata: %s",
+					sql, refSQL, msg, ref, dataJSON)
+			}
+			e.cut = nil
 		}
 		qClasses := []string{"query:select=" + map[bool]string{true: "star", false: "list"}[q.All],
 			"query:groupby=" + map[bool]string{true: "tags", false: "none"}[len(q.GroupBy) > 0],
@@ -587,6 +697,10 @@ func runCase(t *rapid.T, group string, b caseBudget) {
 		}
 		if len(m.ambiguous) > 0 {
 			qClasses = append(qClasses, "query:has-order-ambiguous-first/last-cells")
+		}
+		qClasses = append(qClasses, "query:limit="+q.LimitKind)
+		if d.Wide && q.Metric == 0 {
+			qClasses = append(qClasses, "query:over-the-wide-metric")
 		}
 		if q.Metric >= 0 {
 			lacking := func(keys []string) bool {
@@ -612,7 +726,51 @@ func runCase(t *rapid.T, group string, b caseBudget) {
 		for li, l := range layouts[1:] {
 			e.runLayout(q, sql, m, ref, li+1, l, qClasses, midPick, nodePick, schedPicks, b, dataJSON)
 		}
+		if len(e.picks) > 1 {
+			// which groups a cut answer holds is indeed not fixed on this tree
+			ev.Class(group, "info:limit:executions-of-one-query-returned-different-sets-of-groups", 1)
+		}
+		e.cut = nil
 	}
+}
+
+// cutClasses: how the groups of a cut answer lie on the nodes of the layout.
+func (l *layoutSpec) cutClasses(m *modelOut, cut *cutSpec) []string {
+	nodesOf := map[string]map[int]bool{}
+	groupsOn := map[int]map[string]bool{}
+	for si, g := range m.groupOf {
+		ni := l.nodeOf[si]
+		if nodesOf[g] == nil {
+			nodesOf[g] = map[int]bool{}
+		}
+		nodesOf[g][ni] = true
+		if groupsOn[ni] == nil {
+			groupsOn[ni] = map[string]bool{}
+		}
+		groupsOn[ni][g] = true
+	}
+	shared, over := false, false
+	for _, ns := range nodesOf {
+		if len(ns) >= 2 {
+			shared = true
+		}
+	}
+	for _, gs := range groupsOn {
+		if len(gs) > cut.limit {
+			over = true
+		}
+	}
+	var out []string
+	if shared {
+		out = append(out, "limit:cut+a-group-has-series-on->=2-nodes")
+	}
+	if over && len(l.Nodes) >= 2 {
+		out = append(out, "limit:cut+a-node-of->=2-holds-more-groups-than-the-limit")
+	}
+	if shared && over {
+		out = append(out, "limit:cut+a-node-holds-more-groups-than-the-limit+a-group-has-series-on->=2-nodes")
+	}
+	return out
 }
 
 func (e *env) runLayout(q *querySpec, sql string, m *modelOut, ref node.Result, li int, l *layoutSpec,
@@ -620,8 +778,14 @@ func (e *env) runLayout(q *querySpec, sql string, m *modelOut, ref node.Result, 
 	t := e.t
 	nLeaves := len(l.Nodes)
 	fail := func(topology string, order []string, msg string, obs []respObs) {
-		t.Fatalf("C12 violated: answer depends on the layout\nquery:    %s\nlayout:   %s (%s)\ndelivery: %v\nresponses: %+v\n%s\nreference (1 shard, 1 leaf):\n%sdata: %s",
-			sql, l, topology, order, obs, msg, ref, dataJSON)
+		refName, refText := "reference (1 shard, 1 leaf)", ref.String()
+		if e.cut != nil {
+			refName = fmt.Sprintf("the limit (%d) cuts the answer (%d series under this layout): the reference is the complete answer (limit %d; 1 shard, 1 leaf), every returned group must be a group of it",
+				e.cut.limit, e.cut.series, completeLimit)
+			refText = fmt.Sprintf("(%d groups with values, see above)\n", len(ref))
+		}
+		t.Fatalf("C12 violated: answer depends on the layout\nquery:    %s\nlayout:   %s (%s)\ndelivery: %v\nresponses: %+v\n%s\n%s:\n%sdata: %s",
+			sql, l, topology, order, obs, msg, refName, refText, dataJSON)
 	}
 	names := make([]string, nLeaves)
 	for i := range names {
@@ -637,6 +801,56 @@ func (e *env) runLayout(q *querySpec, sql string, m *modelOut, ref node.Result, 
 		classes = append(classes, "layout:a-shard-holds-only-series-without-the-group-key-next-to-a-shard-with")
 	}
 	ambDiffers := 0
+
+	// (0) group by: the complete answer (a limit that does not cut) under this layout. It must be the
+	// reference, and its number of series decides whether the limit of the query cuts under this layout.
+	e.cut = nil
+	defer func() {
+		if e.cut != nil && e.cut.short > 0 {
+			ev.Class(e.group, "info:limit:cut-answer-with-fewer-series-than-the-limit(all-groups-with-values-present)", e.cut.short)
+		}
+		e.cut = nil
+	}()
+	if len(q.GroupBy) > 0 {
+		completeSQL := q.sqlWithLimit(e.d, completeLimit)
+		var series map[string]bool
+		var obs []respObs
+		e.xc.Compute, e.xc.Order = nil, nil
+		msg, a := e.repeat(func() (*commonmodels.ResultSet, error) {
+			rs, err := e.xc.Query("root:1", l.db, completeSQL)
+			obs = e.xc.observed()
+			series = rawKeys(rs)
+			return rs, err
+		}, ref, m)
+		if msg != "" {
+			fail("root -> leaves; the statement with a limit that does not cut: "+completeSQL, names, msg, obs)
+		}
+		ambDiffers += a
+		ev.Class(e.group, "executions:root->leaves(complete answer of a group-by query)", 1)
+		data := len(m.groupKeys())
+		if len(series) > data {
+			classes = append(classes, "limit:complete-answer-has-series-without-values")
+		}
+		switch {
+		case len(series) > q.effLimit():
+			e.cut = &cutSpec{limit: q.effLimit(), series: len(series), data: data, picks: e.picks}
+			classes = append(classes, "limit:cuts-the-answer", "limit:cuts:series/limit="+bucket(len(series)*10/e.cut.limit, 12, 15, 20, 30, 50)+"(x0.1)")
+			if q.Limit > 0 {
+				classes = append(classes, "limit:cuts:explicit-limit")
+			} else {
+				classes = append(classes, "limit:cuts:default-limit-20")
+			}
+			if data <= e.cut.limit {
+				classes = append(classes, "limit:cuts-only-because-of-series-without-values")
+			}
+			classes = append(classes, l.cutClasses(m, e.cut)...)
+		case data == 0:
+		case len(series) == q.effLimit():
+			classes = append(classes, "limit:equals-the-number-of-series")
+		default:
+			classes = append(classes, "limit:above-the-number-of-series")
+		}
+	}
 
 	// (1) every delivery order at the root. The first run (canonical order = send order) also tells
 	// what each leaf answered.
@@ -839,7 +1053,11 @@ func (e *env) runLayout(q *querySpec, sql string, m *modelOut, ref node.Result, 
 func (e *env) repeat(exec func() (*commonmodels.ResultSet, error), ref node.Result, m *modelOut) (msg string, ambiguousDiffers int) {
 	for attempt := 1; ; attempt++ {
 		rs, err := exec()
-		msg, ambiguousDiffers = diff(ref, node.Canon(rs), err, m)
+		if e.cut != nil {
+			msg, ambiguousDiffers = diffLimited(ref, rs, err, m, e.cut)
+		} else {
+			msg, ambiguousDiffers = diff(ref, node.Canon(rs), err, m)
+		}
 		if msg == "" || attempt == executions {
 			return msg, ambiguousDiffers
 		}
